@@ -14,25 +14,24 @@ def oracles_():
 
 
 MANIFEST = {
-    "text": "Coq theorems: an independent RFC 8259 string reader recovers every valid UTF-8 string from json_print_string's output "
-            "(C12_json_string_std); an independent XML 1.0 character-data / attribute-value reader (strict UTF-8 decoding, Char "
+    "text": "Coq theorems: an independent RFC 8259 string reader recovers every valid UTF-8 string without NUL from json_print_string's output (C12_json_string_std; the NUL "
+            "exclusion is necessary: _nul_refuted; reader side, outside C12 proper: lyjson_string and the RFC 8259 reader "
+            "disagree on backslash-b, surrogate pairs and non-hex u-escapes: C12_json_lexer_std_refuted); an independent XML 1.0 character-data / attribute-value reader (strict UTF-8 decoding, Char "
             "check, predefined entities and character references, line-end handling 2.11, attribute-value normalisation 3.3.3) "
             "recovers every string of XML Chars - CR, TAB and LF included - from lyxml_dump_text's output, as element content "
             "(C12_xml_text_std) and as attribute value (C12_xml_attr_std), with no further hypothesis: since commits 6fdbff2 / "
-            "47fa563 the printer writes CR as &#xD; and, in attributes, TAB/LF as &#x9;/&#xA; (the former findings xml-cr and "
-            "xml-attr-ws and their _refuted theorems are gone; positive examples with CR/TAB/LF instead). The Char hypothesis is "
+            "47fa563 the printer writes CR as &#xD; and, in attributes, TAB/LF as &#x9;/&#xA; (the former findings xml-cr and xml-attr-ws are fixed by these commits; C12_xml_text_std_cr_tab_lf_example). The Char hypothesis is "
             "necessary (C12_xml_text_std_nonchar_refuted: a non-Char such as U+0001 is written raw). Printer models tied by scraped "
             "tables (T1: the scraper understands exactly the present shape of lyxml_dump_text's switch and fails loudly "
             "otherwise) and differential runs (T2); lyxml_dump_text's output for CR/TAB/LF-rich strings is read by expat at "
             "function level, and whole documents printed by libyang are read by expat and Python json and compared with the "
             "instance (search). A deviation of either is a plain violation. DOCUMENT LEVEL (slice doc, Tree subset): "
-            "C12_xml_doc_std / _sel / _single: a namespace-aware XML 1.0 reader written from the recommendations (elements, "
+            "C12_xml_doc_std / _sel / _single / _checked (hypotheses: tabs_okb, Canon, DocN V_std = values are XML Chars): "
+            "a namespace-aware XML 1.0 reader written from the recommendations (elements, "
             "attributes with both quote characters, character data and attribute values through StdText, Element Type Match, "
             "Unique Att Spec, Prefix Declared, Attributes Unique) applied to xml_print (the transcription of printer_xml.c) "
             "reports no top-level character data and exactly the generic element trees of the selected forest: namespaces of "
-            "elements and metadata attributes, values, order - also when two modules share a prefix (since 91f0178 the second "
-            "one gets a numbered prefix; the former C12_xml_doc_prefix_clash_refuted is the positive Example "
-            "C12_xml_doc_prefix_clash_regression) - for metadata keys distinct per node (C12_xml_doc_dup_meta_refuted); several top-level nodes are well-formed content, "
+            "elements and metadata attributes, values, order - also when two modules share a prefix (since 91f0178 the second one gets a numbered prefix: regression Example C12_xml_doc_prefix_clash_regression) - for metadata keys distinct per node (C12_xml_doc_dup_meta_refuted); several top-level nodes are well-formed content, "
             "not a document (C12_xml_doc_std_siblings_refuted). C12_xml_doc_start_tags: the namespace law of the start tags on the "
             "printer itself (no prefix defined twice in a tag or re-defined in the scope, default namespace = module of the "
             "node, the prefix of every metadata attribute bound in scope to the namespace of its annotation's module) - the "
@@ -45,12 +44,12 @@ MANIFEST = {
             "the node value and the metadata values, and every metadata attribute prefix, resolves in the scope of the element "
             "to the right namespace; C12_xml_value_prefixes_shared_refuted = listed finding xml-same-prefix-value-clash; "
             "regression Examples for the shapes of C12-3 and C12-8. PARTIAL: XmlQn.v is a start-tag model that is not "
-            "extracted; its tie to the code is the oracle QNamesX only. C12_json_doc_std / _sel / _checked: an RFC 8259 reader (grammar of "
+            "extracted; its tie to the code is the oracle QNamesX only. C12_json_doc_std / _sel / _checked (tabs_okb, parents_ltb, Canon, JDocN utf8_nonul; the rendering alone: "
+            "C12_json_rendering_std): an RFC 8259 reader (grammar of "
             "sections 2-7 + StdText strings) applied to json_print (the transcription of printer_json.c with its state) for "
             "EVERY node selection recovers the RFC 7951 value of the selected part of the forest (qualifiers, arrays, string / "
             "literal classes, [null], RFC 7952 metadata objects), through C01_json_print_is_rfc7951 (the state machine prints "
-            "the RFC 7951 rendering of the selected part; since f592167 also in trim mode: the former C12_json_trim_refuted is "
-            "the positive Example C12_json_trim_regression). Tie as for C01 (byte-identical output, the "
+            "the RFC 7951 rendering of the selected part; since f592167 also in trim mode: regression Example C12_json_trim_regression). Tie as for C01 (byte-identical output, the "
             "standard readers of the Coq development run on libyang's bytes). WellFormedX: expat / json on libyang's output for "
             "opaque nodes, anydata / anyxml and operations. QNamesX: on the value-type module family of RoundTripTypes (every "
             "type as leaf, key, leafref, union member, annotation; identities of three modules; module families in which two "
